@@ -8,6 +8,8 @@
 -/
 import SeedProofs.Lemmas.C20Bind
 import SeedProofs.Lemmas.Frame2
+import SeedProofs.Lemmas.C14This
+import SeedProofs.Lemmas.C18EvalPosProg
 namespace Seed.C20
 open Seed ScopeL BindL
 
@@ -425,5 +427,34 @@ theorem bindable_kinds_as_documented :
     Gen.paramRejects.map Prod.fst =
       [c!"Index", c!"RangeIndex", c!"Prop", c!"Null", c!"Bool", c!"Int", c!"Str", c!"BinaryOp", c!"Range", c!"Func", c!"Call"] := by
   decide
+
+/-! ### the implicit `this` -/
+
+/-- the implicit `this` of a call is a declaration of the call's own scope — the scope cell that holds the parameters and
+    the body's top-level declarations — made at the position of the call: once the bindings of a call whose callee was read
+    from an object are in place, declaring `this` again at the top level of the body is `AlreadyInScope`, citing the call;
+    nothing is changed -/
+theorem body_cannot_redeclare_this {k : Nat} {σ3 σb : State} {fr : FuncRec} {pv : List SVal} {t : Val} {loc : Loc}
+    (hb : declareAll k (σ3.alloc (.scope [])).2 (σ3.heap.size :: fr.closure) (callBindings fr pv (some t) loc) = .ok () σb)
+    (fuel : Nat) (l2 : Loc) (rhs : SVal) :
+    bindNextName fuel σb (σ3.heap.size :: fr.closure) [] c!"this" l2 rhs none true =
+      errAt l2 (Gen.Leaf.AlreadyInScope c!"this" loc.1 loc.2) σb := by
+  obtain ⟨m, hs, hl⟩ := declareAll_this_last (bs := fr.args.zip pv) hb
+  exact declare_twice fuel σb _ _ [] c!"this" l2 loc rhs (SVal.plain t) m (by decide) rfl hs hl
+
+/-- … while a scope opened inside the body may declare `this` (it shadows the receiver there) -/
+theorem inner_scope_may_declare_this (fuel : Nat) (σ : State) (inner : Addr) (sc : List Addr) (l2 : Loc) (rhs : SVal) (m : ScopeMap)
+    (hm : σ.getScope inner = some m) (hl : scopeLookup c!"this" m = none) :
+    bindNextName fuel σ (inner :: sc) [] c!"this" l2 rhs none true =
+      .ok [c!"this"] (σ.set inner (.scope ((c!"this", rhs, l2) :: m))) :=
+  declare_inner_ok fuel σ inner sc [] c!"this" l2 rhs m (by decide) rfl hm hl
+
+/-- the hypotheses are met by a real call: `this := 1` at 1:19 in a method called at 1:34 fails at 1:19 inside the call made at
+    1:34, and the declaration it cites is the call's -/
+example : ∃ e σ, evalProg 60 (progOf c!"o := {\"f\": fn() { this := 1; }}; o.f();") = .err e σ ∧
+    e.positions = [(1, 34), (1, 19)] ∧ e.payloadLocs = [(1, 34)] := by
+  obtain ⟨e, σ, he, hp⟩ := errOf_map (n := 60) (stmts := progOf c!"o := {\"f\": fn() { this := 1; }}; o.f();")
+    (f := fun e => (e.positions, e.payloadLocs)) (x := ([(1, 34), (1, 19)], [(1, 34)])) (by decide +kernel)
+  exact ⟨e, σ, he, congrArg Prod.fst hp, congrArg Prod.snd hp⟩
 
 end Seed.C20
